@@ -8,8 +8,10 @@ import (
 	"os"
 	"regexp"
 	"strings"
+	"time"
 
 	goerrors "github.com/ajitpratap0/GoSQLX/pkg/errors"
+	"github.com/ajitpratap0/GoSQLX/pkg/formatter"
 	"github.com/ajitpratap0/GoSQLX/pkg/gosqlx"
 	"github.com/ajitpratap0/GoSQLX/pkg/sql/parser"
 	"github.com/ajitpratap0/GoSQLX/pkg/sql/tokenizer"
@@ -147,6 +149,14 @@ func c13EntryPoints() []failingEP {
 		{"gosqlx.Validate", func(s string) []error { return one(gosqlx.Validate(s)) }},
 		{"gosqlx.ParseWithContext", func(s string) []error { _, err := gosqlx.ParseWithContext(context.Background(), s); return one(err) }},
 		{"parser.Validate", func(s string) []error { return one(parser.Validate(s)) }},
+		{"gosqlx.ParseMultiple", func(s string) []error { _, err := gosqlx.ParseMultiple([]string{"SELECT 1", s}); return one(err) }},
+		{"gosqlx.ValidateMultiple", func(s string) []error { return one(gosqlx.ValidateMultiple([]string{"SELECT 1", s, "SELECT 2"})) }},
+		{"gosqlx.ParseBytes", func(s string) []error { _, err := gosqlx.ParseBytes([]byte(s)); return one(err) }},
+		{"gosqlx.ParseWithTimeout", func(s string) []error { _, err := gosqlx.ParseWithTimeout(s, time.Hour); return one(err) }},
+		{"gosqlx.Format", func(s string) []error { _, err := gosqlx.Format(s, gosqlx.DefaultFormatOptions()); return one(err) }},
+		{"formatter.Format", func(s string) []error { _, err := formatter.New(formatter.Options{}).Format(s); return one(err) }},
+		{"parser.ValidateBytesWithDialect", func(s string) []error { return one(parser.ValidateBytesWithDialect([]byte(s), "postgresql")) }},
+		{"parser.ParseWithDialect", func(s string) []error { _, err := parser.ParseWithDialect(s, "mysql"); return one(err) }},
 		{"parser.ParseBytes", func(s string) []error { _, err := parser.ParseBytes([]byte(s)); return one(err) }},
 		{"gosqlx.ParseWithRecovery", func(s string) []error { _, errs := gosqlx.ParseWithRecovery(s); return errs }},
 		{"Tokenizer.Tokenize", func(s string) []error {
